@@ -57,6 +57,10 @@ func (o *oracles) reference(files []string) ([]*oracle.StreamSig, error) {
 }
 
 func (o *oracles) checkComplete(v *ViewSig, processed []string, what string) {
+	if o.completeOff {
+		o.s.res.Count("c10_complete_off_after_restart_with_imports_in_flight", 1)
+		return
+	}
 	ref, err := o.reference(processed)
 	if err != nil {
 		o.s.res.Infra = "reference import failed: " + err.Error()
@@ -107,7 +111,7 @@ func (o *oracles) viewOpened(op Op, r OpResult) {
 		o.s.res.Count("probe_view_opened_during_jobs", 1)
 		o.s.res.NonTriv = true
 	}
-	if !o.on("C10") {
+	if !o.on("C10", "C05", "C07") {
 		if v.Err != "" && o.on("C13") {
 			o.violate("view-read", "read-failed", "opening a view failed: "+v.Err)
 		}
@@ -127,7 +131,7 @@ func (o *oracles) viewRead(op Op, r OpResult) {
 	if hv == nil || v == nil {
 		return
 	}
-	if !o.on("C10") {
+	if !o.on("C10", "C05", "C07") {
 		return
 	}
 	if v.Err != "" {
@@ -478,6 +482,22 @@ func (o *oracles) checkConverters(final bool) {
 }
 
 func (o *oracles) beforeRestart() {
+	// A capture that was uploaded but whose import had not completed when the
+	// service went down is registered as known by the next start (builder.New
+	// takes every file of the capture directory as imported) although it was
+	// never indexed (DESIGN §8.4); an import whose index file was complete but
+	// unannounced becomes visible. C10 speaks of captures *reported processed*;
+	// after such a restart the harness can no longer tell them from the list
+	// of known captures, so the completeness comparison ends for this run
+	// (stability of views is still checked).
+	if o.state != nil && len(o.state.ImportJobs) > 0 {
+		o.completeOff = true
+	}
+	for _, j := range o.s.jobs {
+		if j.kind == simrt.KindImport {
+			o.completeOff = true
+		}
+	}
 	if o.on("C12") && !o.s.plan.NoOracle {
 		o.preRestart = o.crashModel()
 		o.importWasInFlight = false
